@@ -3,7 +3,7 @@
    failed header check fatal, short reads fatal, last section must end within the file).
    Witnesses: Foam/Current.v (ex_lunit_wf). *)
 Require Import ZArith List.
-Require Import AV.Foam.Buf AV.Foam.LibHdr AV.Gen.FoamInfo AV.Foam.Current.
+Require Import AV.Foam.Buf AV.Foam.LibHdr AV.Foam.Archive AV.Gen.FoamInfo AV.Foam.Current.
 Import ListNotations.
 Local Open Scope Z_scope.
 
@@ -40,3 +40,42 @@ Theorem single_byte_header_dichotomy_partial : forall (u : lunit) (k : nat) (b :
      read_lib LP (subst_nth k b (write_lib LP u)) = Refused BadMagic).
 Proof. exact single_byte_header_dichotomy_partial_current. Qed.
 Print Assumptions single_byte_header_dichotomy_partial.
+
+(* ---- archives (.al).  Model: Foam/Archive.v (arRdTable / arRdItemArch0 / arReadNameTable / arReadNumber
+   as a total function of the bytes; after /repo 90e0eb4 a member whose data leaves the file is reported).
+   Writer of the statements: Foam/ArchiveFacts2.write_ar (ar(1) layout, member names of at most 15
+   characters).  Witnesses: Current.ex_ar_is_written, ex_ar_members_valid, ex_ar_intact_found,
+   ex_ar_truncated_header, ex_ar_truncated_data, ex_ar_boundary_cut. *)
+Require Import AV.Foam.ArchiveFacts2.
+
+(* whatever the bytes: a member is only ever recorded inside the file, behind the magic and one header *)
+Theorem ar_members_inside : forall (file : bytes) (ms : list (bytes * Z)) (dg : list ar_diag),
+  read_ar file = Members ms dg -> Forall (fun m => 68 <= snd m < Z.of_nat (length file)) ms.
+Proof. exact ar_members_inside_current. Qed.
+Print Assumptions ar_members_inside.
+
+(* every member of an intact archive is found at the offset of its data; no diagnostic *)
+Theorem ar_intact_found : forall ms : list (bytes * bytes),
+  Forall valid_member ms -> read_ar (write_ar ms) = Members (found 8 ms) [].
+Proof. exact ar_intact_found_current. Qed.
+Print Assumptions ar_intact_found.
+
+(* a cut strictly inside a member (any byte of its 60-byte header, any byte of its data) is reported *)
+Theorem ar_truncation_refused : forall (ms1 : list (bytes * bytes)) (m : bytes * bytes) (ms2 : list (bytes * bytes)) (j : Z),
+  Forall valid_member (ms1 ++ m :: ms2) ->
+  0 < j < 60 + Z.of_nat (length (snd m)) ->
+  exists fm dg,
+    read_ar (firstn (Z.to_nat (8 + total ms1 + j)) (write_ar (ms1 ++ m :: ms2))) = Members fm dg /\ dg <> [].
+Proof. exact ar_truncation_refused_current. Qed.
+Print Assumptions ar_truncation_refused.
+
+(* the property FAILS at a cut exactly on a member boundary, and necessarily so: such a prefix is the
+   archive ar(1) would write for the first members alone, and it is accepted without a diagnostic
+   (finding al:cut-at-member-boundary:silent-different -- the format carries no member count).
+   The only other accepted cut drops nothing but the final padding byte of an odd-sized member. *)
+Theorem ar_boundary_cut_accepted : forall ms1 ms2 : list (bytes * bytes),
+  Forall valid_member (ms1 ++ ms2) ->
+  firstn (Z.to_nat (8 + total ms1)) (write_ar (ms1 ++ ms2)) = write_ar ms1 /\
+  read_ar (firstn (Z.to_nat (8 + total ms1)) (write_ar (ms1 ++ ms2))) = Members (found 8 ms1) [].
+Proof. exact ar_boundary_cut_accepted_current. Qed.
+Print Assumptions ar_boundary_cut_accepted.
